@@ -16,7 +16,8 @@ Frobenius norm^2 of the operator matrices, >= dim/2).  Histories of several trun
 judged like a single call with the last tolerance.
 Non-contiguous retained stripes (both tiers, independent of the seed): blocks are numbered by (N, Sz), not by energy, so
 the stripes of an operator that touch a retained block need not be neighbours in the order in which the prepare() walks
-meet them.  Fixed models (Hubbard dimer at and away from half filling, dimer in a field, 3-site chain; NONCONTIG_MODELS)
+meet them.  Fixed models (Hubbard dimer at and away from half filling, dimer in a field, asymmetric Anderson dimer, two 3-site chains;
+NONCONTIG_MODELS)
 at beta in {4, 10, 30} are run untruncated once; eps is then placed between the k-th and (k+1)-th largest block maxima
 of the dumped weights (capped at 1e-2) for those k where some Green's function or susceptibility has, in walk order,
 the stripe pattern retained .. discarded .. retained (predicted from the untruncated part lists), plus k = 1.  For
@@ -115,7 +116,9 @@ NONCONTIG_MODELS = [
     ("dimer-half-filled", "site A 1 2\nsite B 1 2\naddCoulombS A 1 -0.5\naddCoulombS B 1 -0.5\naddHopping4 A B -1\nsymm default\n", 4),
     ("dimer-doped", "site A 1 2\nsite B 1 2\naddCoulombS A 3 -0.375\naddCoulombS B 3 -0.375\naddHopping4 A B -0.5\nsymm default\n", 4),
     ("dimer-in-field", "site A 1 2\nsite B 1 2\naddCoulombS A 2 -1\naddCoulombS B 2 -1\naddHopping4 A B 0.5\naddMagnetization A 0.25\naddMagnetization B 0.25\nsymm default\n", 4),
+    ("anderson-asymmetric", "site A 1 2\nsite B 1 2\naddCoulombS A 2 -1\naddLevel B 0.5\naddHopping4 A B 0.5\nsymm default\n", 4),
     ("chain3-half-filled", "site A 1 2\nsite B 1 2\nsite C 1 2\naddCoulombS A 2 -1\naddCoulombS B 2 -1\naddCoulombS C 2 -1\naddHopping4 A B -1\naddHopping4 B C -1\nsymm default\n", 6),
+    ("chain3-doped-in-field", "site A 1 2\nsite B 1 2\nsite C 1 2\naddCoulombS A 2 -0.5\naddCoulombS B 2 -0.5\naddCoulombS C 2 -0.5\naddHopping4 A B 0.5\naddHopping4 B C 0.5\naddMagnetization B 0.25\nsymm default\n", 6),
 ]
 NONCONTIG_BETAS = [4.0, 10.0, 30.0]
 EPS_MAX = 1e-2           # the property quantifies over eps in [0, 1e-2]
@@ -169,7 +172,7 @@ def run_noncontig_group(group):
         for key, stripes in list(gfs.items()) + list(sus.items()):
             pat, nc = stripe_pattern(stripes, keep)
             if nc:
-                hits.append(("G" if len(key) == 2 else "chi") + "_" + "".join(key))
+                hits.append(("G" if len(key) == 2 else "susc") + "_" + "".join(key))
                 pats[hits[-1]] = pat
         if hits or k == 1:
             chosen.append((k, eps, hits, pats))
